@@ -4,6 +4,7 @@
 //! pp_harness --campaign <name> --n <cases> --seed <s> --drv <path> --out <json> [--corpus <file>]
 //! pp_harness --replay <file> --drv <path>
 
+mod binfmt;
 mod campaigns;
 mod exhaustive;
 mod extra;
@@ -328,7 +329,7 @@ pub fn parse_case(line: &str) -> Option<Case> {
             c.tag = v.to_string();
             continue;
         }
-        if matches!(k, "impl" | "direct" | "directmax" | "byref" | "ln" | "exp" | "agree" | "tree" | "borsh" | "rt" | "lazy" | "deps" | "dmr" | "eq") {
+        if matches!(k, "impl" | "direct" | "directmax" | "byref" | "ln" | "exp" | "agree" | "tree" | "borsh" | "rt" | "lazy" | "deps" | "dmr" | "eq" | "takerest" | "neok" | "aliasok" | "iterok") {
             continue;
         }
         let val = match key_type(k) {
